@@ -42,7 +42,7 @@ CHECKS = {
  "C04": ("exploration",
          "full product of URL components with an exact expectation of the bytes written; generic request oracle on every connection for relative references, webfinger handles, hostile content and the UI's :open command",
          "60 784 URL strings (6 schemes x 3 userinfos x 10 hosts incl. one that refuses connections x 14 paths x 8 queries x 3 fragments) through url.Parse + jtp.Get: non-https URLs open no connection; every https URL opens exactly one TLS connection to its host and port and writes exactly request line + Host + Accept with the expected escaping; 18 hostile references x 4 sources through client.FetchUnknown, as Location / embedded reference / id through pub.New and the Tangible methods, 154 webfinger handles, and the :open command typed byte by byte: every connection is TLS with verification on, four CRLF lines, no control bytes, origin-form target without blanks or fragment, Host matching the dial address, constant Accept.",
-         "Env-B: observation at the verifrt.Dial seam (records the dial function called, TLS config class, address, bytes written); connections whose dial host Go's resolver would reject are not judged. Env-A part: a complete sub-product (2 schemes x 3 host spellings x 12 paths x 6 queries) repeated over a real TLS listener on loopback with a run-time CA and an in-process DNS responder behind servitor's own dialer: bytes arrive inside TLS, SNI and DNS question name the URL's host, received bytes equal the expectation.",
+         "Env-B: observation at the verifrt.Dial seam (records the dial function called, TLS config class, address, bytes written); connections whose dial host Go's resolver would reject are not judged. Env-A part: a complete sub-product (2 schemes x 3 host spellings x 12 paths x 6 queries; thorough: x 9 userinfo and fragment spellings) repeated over a real TLS listener on loopback with a run-time CA and an in-process DNS responder behind servitor's own dialer: bytes arrive inside TLS, SNI and DNS question name the URL's host, received bytes equal the expectation.",
          "DESIGN.md §3 C04"),
  "C05": ("fault_enumeration",
          "exhaustive fault-point enumeration (every cut byte x FIN/RST/stall x every hop, trickle, connection-stage faults) over a response corpus on the real fetch path with virtual-time connections",
